@@ -629,14 +629,17 @@ func (run *Run) Step(s int) *monitor.ScanCtx {
 	}
 	opts := sim.ScanOpts{}
 	m := run.Master
+	// draw the same number of values from the master stream whatever happens (two-run comparisons rely on it)
+	rFault, rCrash, rStale, rRestart := m.Float64(), m.Float64(), m.Float64(), m.Float64()
+	crashAt := m.Intn(25)
 	if run.nextFaults != nil {
 		opts.Faults, run.nextFaults = run.nextFaults, nil
-	} else if m.Float64() < k.PFault {
+	} else if rFault < k.PFault {
 		opts.Faults = run.randomFaults()
-	} else if m.Float64() < k.PCrash {
-		opts.Faults = &sim.FaultPlan{ByIndex: map[int]sim.FaultKind{m.Intn(25): sim.FCrash}}
+	} else if rCrash < k.PCrash {
+		opts.Faults = &sim.FaultPlan{ByIndex: map[int]sim.FaultKind{crashAt: sim.FCrash}}
 	}
-	if (run.nextStale || m.Float64() < k.PStale) && s > 0 {
+	if (run.nextStale || rStale < k.PStale) && s > 0 {
 		opts.StaleView = true
 	}
 	run.nextStale = false
@@ -647,7 +650,7 @@ func (run *Run) Step(s int) *monitor.ScanCtx {
 	}
 	run.H.CheckScan(sc, run.Rep)
 
-	restart := rec.Crashed || rec.Err != nil || rec.Panic != nil || m.Float64() < k.PRestart
+	restart := rec.Crashed || rec.Err != nil || rec.Panic != nil || rRestart < k.PRestart
 	if restart {
 		if err := env.Start(); err != nil {
 			run.Rep.Violate("C20", "restart-failed", "controller could not be re-created: %v", err)
